@@ -156,8 +156,10 @@ func VerifC15_OwnerOnly() {
 		actor, isOwner = e.bob, false
 	}
 	var err error
-	if verifChoice("op", 2) == 0 {
-		msg := &types.MsgEditMT{Id: e.mtID, DenomId: e.denomID, Sender: actor.String(), Data: []byte("new")}
+	op := verifChoice("op", 2)
+	newData := []string{"new", types.DoNotModify}[verifChoice("editData", 2)]
+	if op == 0 {
+		msg := &types.MsgEditMT{Id: e.mtID, DenomId: e.denomID, Sender: actor.String(), Data: []byte(newData)}
 		verifAssume(msg.ValidateBasic() == nil)
 		err, _ = e.verifDeliver(func() error { _, err := NewMsgServerImpl(e.k).EditMT(e.ctx, msg); return err })
 	} else {
@@ -176,4 +178,70 @@ func VerifC15_OwnerOnly() {
 	}
 	verifCover("done")
 	verifAssert(isOwner, "only the class owner edits or hands over")
+	m, merr := e.k.GetMT(e.ctx, e.denomID, e.mtID)
+	if op == 0 {
+		want := "data" // what the token carried before
+		if newData != types.DoNotModify {
+			want = newData
+		}
+		verifAssert(merr == nil && string(m.GetData()) == want && d.Owner == e.owner.String(), "an edit stores the new metadata (the do-not-modify sentinel keeps the old) and nothing else")
+	} else {
+		verifAssert(d.Owner == e.alice.String() && merr == nil && string(m.GetData()) == "data", "a handover changes the class owner and nothing else")
+	}
+}
+
+// C15 ids: classes and tokens created one after the other - from any position of the two id sequences - get
+// ids of their own: never an id that exists already, never the same id twice; a new token starts with
+// exactly the minted amount as its supply, held by the recipient; the class counts its tokens (a further
+// mint of an existing token does not count again); only the class owner creates tokens in it.
+func VerifC15_NewIds() {
+	verifExpect("created")
+	e := &mtEnv{vEnv: newVEnv(types.StoreKey, 10)}
+	e.k = NewKeeper(e.cdc, e.key)
+	alice, bob := vAddr(2), vAddr(3)
+	seqs := []uint64{0, 1, 9, 1 << 40}
+	if sd := verifChoice("denomSequence", 4); sd > 0 {
+		e.k.SetDenomSequence(e.ctx, seqs[sd])
+	}
+	if sm := verifChoice("mtSequence", 4); sm > 0 {
+		e.k.SetMTSequence(e.ctx, seqs[sm])
+	}
+	srv := NewMsgServerImpl(e.k)
+	_, err1 := srv.IssueDenom(e.ctx, &types.MsgIssueDenom{Name: "one", Sender: alice.String()})
+	_, err2 := srv.IssueDenom(e.ctx, &types.MsgIssueDenom{Name: "two", Sender: bob.String()})
+	verifAssert(err1 == nil && err2 == nil, "anybody can issue a class")
+	ds := e.k.GetDenoms(e.ctx)
+	verifAssert(len(ds) == 2 && ds[0].Id != ds[1].Id, "two classes issued one after the other have different ids")
+	var mine types.Denom
+	for _, d := range ds {
+		if d.Name == "one" {
+			mine = d
+		}
+	}
+	verifAssert(mine.Owner == alice.String(), "a class belongs to its issuer")
+	a1, a2, a3 := verifUint64("amt1"), verifUint64("amt2"), verifUint64("amt3")
+	verifAssume(a1 >= 1 && a2 >= 1 && a3 >= 1 && a1 < 1<<62 && a3 < 1<<62)
+	_, e1 := srv.MintMT(e.ctx, &types.MsgMintMT{DenomId: mine.Id, Amount: a1, Sender: alice.String(), Recipient: alice.String()})
+	_, e2 := srv.MintMT(e.ctx, &types.MsgMintMT{DenomId: mine.Id, Amount: a2, Sender: alice.String(), Recipient: bob.String()})
+	_, e3 := srv.MintMT(e.ctx, &types.MsgMintMT{DenomId: mine.Id, Amount: 5, Sender: bob.String(), Recipient: bob.String()})
+	verifAssert(e1 == nil && e2 == nil, "the class owner creates tokens in its class")
+	verifAssert(e3 != nil, "nobody else creates tokens in a class")
+	ms := e.k.GetMTs(e.ctx, mine.Id)
+	verifAssert(len(ms) == 2 && ms[0].GetID() != ms[1].GetID() && e.k.GetDenomSupply(e.ctx, mine.Id) == 2, "two tokens created one after the other have different ids and the class counts both")
+	verifCover("created")
+	var ofAlice, ofBob string
+	for _, m := range ms {
+		if e.k.GetBalance(e.ctx, mine.Id, m.GetID(), alice) > 0 {
+			ofAlice = m.GetID()
+		} else {
+			ofBob = m.GetID()
+		}
+	}
+	verifAssert(ofAlice != "" && ofBob != "" && e.k.GetBalance(e.ctx, mine.Id, ofAlice, alice) == a1 && e.k.GetMTSupply(e.ctx, mine.Id, ofAlice) == a1 && e.k.GetBalance(e.ctx, mine.Id, ofAlice, bob) == 0, "a new token's whole supply is the minted amount, held by the recipient")
+	verifAssert(e.k.GetBalance(e.ctx, mine.Id, ofBob, bob) == a2 && e.k.GetMTSupply(e.ctx, mine.Id, ofBob) == a2 && e.k.GetBalance(e.ctx, mine.Id, ofBob, alice) == 0, "a new token's whole supply is the minted amount, held by the recipient (second token)")
+	// more of an existing token
+	_, e4 := srv.MintMT(e.ctx, &types.MsgMintMT{Id: ofAlice, DenomId: mine.Id, Amount: a3, Sender: alice.String(), Recipient: bob.String()})
+	verifAssert(e4 == nil && e.k.GetDenomSupply(e.ctx, mine.Id) == 2 && len(e.k.GetMTs(e.ctx, mine.Id)) == 2, "minting more of an existing token creates no new token")
+	verifAssert(e.k.GetMTSupply(e.ctx, mine.Id, ofAlice) == a1+a3 && e.k.GetBalance(e.ctx, mine.Id, ofAlice, bob) == a3 && e.k.GetBalance(e.ctx, mine.Id, ofAlice, alice) == a1, "a further mint adds exactly its amount to the supply and to the recipient")
+	verifAssert(e.k.GetMTSupply(e.ctx, mine.Id, ofBob) == a2, "other tokens of the class are untouched")
 }
